@@ -793,6 +793,23 @@ class C08(C07):
         for d, ds, de in doc_stream(rng, tier, n, n, 0, 0, delims=self.pairs):
             yield self.mk(d, ds, de, label="doc")
 
+    def spec_reqs(self, case, impl):
+        rs = super().spec_reqs(case, impl)
+        if rs:
+            m = case.meta
+            rs.append(req("spec", m["src"], m["ds"], m["de"], extra=["C08fits"]))
+        return rs
+
+    def oracle(self, case, impl, spec):
+        r = super().oracle(case, impl, spec)
+        # where the input lies with respect to the theorem c08_source (hypothesis fitsSource, evaluated by the Lean driver)
+        if len(spec) > 1 and "tags" in r:
+            fits = parse_reply(spec[1])[1] == "true"
+            r["tags"] = r["tags"] + ["c08_source:" + ("covers" if fits else "does-not-cover")]
+            if fits and r.get("fail") == self.spec_name:
+                r["detail"] = "(the input satisfies the hypothesis of the theorem c08_source: implementation and model must differ) " + r["detail"]
+        return r
+
     def region_not_well_delimited(self, case, verdict):
         """the region of D4: a multi-character delimiter and a source that does not FIT the delimiters - the Lean predicate
         Props.C08.fitsSource, i.e. the hypothesis of the theorem c08_source (evaluated by the model driver); every source
